@@ -43,7 +43,7 @@ def run(rep: Report, tier: str, seed: int) -> None:
                 continue  # cannot happen: run_packed bisects
             mini = build([(n, fs)])[0]
             rep.violation(
-                "completes-or-documented-rejection", f"{obs.outcome}:{obs.crash_sig()}|{family(n)}|{opts.docstyle if n.startswith('doc:') or 'named-like-module' in n else '*'}",
+                "completes-or-documented-rejection", f"{obs.outcome}:{obs.crash_sig()}|{family(n)}|{opts.docstyle if n.startswith(('doc:', 'doctype:')) or 'named-like-module' in n else '*'}",
                 {"form": n, "options": opts.key(), "exception": f"{obs.exc_type}: {obs.exc_msg}", "traceback_tail": obs.exc_tb[-700:]}, files=mini, src_rel=PKG, opts=opts, obs=obs,
             )
         if obs.outcome == "completed" and len(us) > 1:
